@@ -117,7 +117,10 @@ def random_call(rng, op, nmax=10):
     else:
         ap = [[f"z{i + 1}", _pick_spec(rng, kinds, cols, n, SUITABLE["count"]), rng.choice([0, 0, 1, 2])]
               for i in range(rng.choice([1, 1, 2]))]
-    return {"op": op, "names": NAMES[:ncols], "cols": cols, "over": over,
+    # column names that only differ by case / punctuation (as after a join): a column given BY NAME is the column
+    # with exactly that name, not an earlier one whose accessor looks the same
+    names = rng.choice([NAMES, NAMES, NAMES, ["A", "a", "B", "b", "c"], ["a b", "a_b", "X", "x", "y"]])[:ncols]
+    return {"op": op, "names": names, "cols": cols, "over": over,
             "over_bare": nk == 1 and rng.random() < 0.5, "args": args, "apply": ap}
 
 
